@@ -62,11 +62,12 @@ def check(ctx):
     # (a) random scripts vs the model
     lines, metas = [], []
     for _ in range(ctx.scale(300, 3000)):
-        k = rng.choice([1, 1, 2, 3, 5, 8])
+        k = rng.choice([0, 1, 1, 2, 3, 5, 8])
         n = rng.choice([0, 1, 2, 3, 5, 8, 13, 25, 40])
         draws = [rng.randrange(max(1, t)) for t in range(k + 1, n + 1)]     # u in [0, t-1] for t = k+1..n
         res, cnt, ranges = run_impl(k, n, draws)
         js = [1] * min(k, n) + [u + 1 for u in draws]
+        js = js + [1] * (n - len(js))
         lines.append('res.run %d %d | %s' % (k, n, ' '.join(map(str, js))))
         lines.append('res.ranges %d %d' % (k, n))
         metas.append((k, n, draws, res, cnt, ranges))
